@@ -34,9 +34,42 @@ def Gm.valid (g : Gm) (st : Step) : Bool :=
              else ((g.out.getD (b * g.amax + st.a) []).any (fun oc => oc.1 == b1 && oc.2.1 == st.o && oc.2.2 == st.r))
   tOk && oOk && (st.term == g.isTerm st.s1) && decide (st.s < g.nS) && decide (st.a < g.amax)
 
-def Gm.mdl (g : Gm) (explPos : Bool) : Mdl :=
+/-! Double arithmetic for the two transcendental ingredients (`log`, `sqrt`): the driver evaluates the *same expressions*
+    as the C++ code in IEEE doubles (Lean `Float` = C `double`, `Float.log`/`Float.sqrt` = libm `log`/`sqrt`) and hands the
+    exact value of the resulting double to the model as a parameter. -/
+
+def floatToX (f : Float) : XRat :=
+  if f.isNaN then .nan
+  else if f.isInf then (if f > 0 then .pinf else .ninf)
+  else
+    let bits : Nat := f.toBits.toNat
+    let neg : Bool := bits / 2 ^ 63 == 1
+    let ex : Nat := (bits / 2 ^ 52) % 2048
+    let frac : Nat := bits % 2 ^ 52
+    let mag : Rat := if ex == 0 then ((frac : Nat) : Rat) * pow2 (-1074)
+                     else (((2 ^ 52 + frac : Nat) : Nat) : Rat) * pow2 (((ex : Nat) : Int) - 1075)
+    .fin (if neg then -mag else mag)
+
+/-- exact for the dyadic rationals the protocol carries -/
+def ratToFloat (q : Rat) : Float := Float.ofInt q.num / Float.ofNat q.den
+
+/-- `exploration_ * std::sqrt(std::log(count + 1.0) / an.N)` -/
+def bonusF (c : Float) (count n : Nat) : XRat :=
+  floatToX (c * Float.sqrt (Float.log (count.toFloat + 1.0) / n.toFloat))
+
+/-- `p * std::log(p)` with `p = double(c) / double(n)` -/
+def plogpF (c n : Nat) : Rat :=
+  let p := c.toFloat / n.toFloat
+  match floatToX (p * Float.log p) with
+  | .fin q => q
+  | _ => 0
+
+def Gm.mdl (g : Gm) (expl : Rat) (slack : Option Rat) (entropy : Bool) : Mdl :=
   { pomcp := g.kind == 2,
-    explPos := explPos,
+    bonus := bonusF (ratToFloat expl),
+    uctSlack := slack,
+    entropy := entropy,
+    plogp := plogpF,
     gamma := g.gamma,
     rollOff := if g.kind == 2 then Gen.C19.pomcpRollOff else Gen.C19.mctsRollOff,
     rollGuard := Gen.C19.pomcpRollGuard,
@@ -240,14 +273,19 @@ def runCall (g : Gm) (m : Mdl) (st : St) (c : CallRec) : St :=
 
 def emptyTree : Tree := Tree.fresh [] 0 0
 
+def slackTol : Rat := 1 / 1000000000
+
 def run : P String := do
   let g ← pGm
-  let expl ← P.bool; let _extra ← P.nat
+  let expl ← P.q; let _extra ← P.nat; let _ent ← P.bool
   let calls ← pCalls 64
   P.eof
-  let m := g.mdl expl
   let st0 : St := { t := emptyTree, prev := [], budget := 0, rootStates := [], diffs := [], fails := [], sims := 0 }
-  let st := calls.foldl (runCall g m) st0
+  let st := calls.foldl (runCall g (g.mdl expl none false)) st0
+  -- a run the strict selection rule rejects but a 1e-9 slack on the scores accepts: rounding of V decided a near-tie
+  if !st.diffs.isEmpty && st.fails.isEmpty then
+    let st2 := calls.foldl (runCall g (g.mdl expl (some slackTol) false)) st0
+    if st2.diffs.isEmpty && st2.fails.isEmpty then return "skip ill_conditioned_uct_tie" else pure ()
   let v : Verdict := { tag := (if st.sims == 0 then "trivial" else comp g), diffs := st.diffs, fails := st.fails }
   return v.render
 
@@ -428,17 +466,19 @@ def runRCall (g : Gm) (m : Mdl) (kk : Nat) (st : RSt) (c : RCallRec) : RSt :=
 
 def rrun : P String := do
   let g ← pGm
-  let expl ← P.bool; let kk ← P.nat
+  let expl ← P.q; let kk ← P.nat; let ent ← P.bool
   let calls ← pRCalls 64
   P.eof
-  let m := { g.mdl expl with pomcp := true }
   let st0 : RSt := { t := R.RTree.fresh [] 0, prev := [], diffs := [], fails := [], sims := 0 }
-  let st := calls.foldl (runRCall g m kk) st0
+  let st := calls.foldl (runRCall g { g.mdl expl none ent with pomcp := true } kk) st0
+  if !st.diffs.isEmpty && st.fails.isEmpty then
+    let st2 := calls.foldl (runRCall g { g.mdl expl (some slackTol) ent with pomcp := true } kk) st0
+    if st2.diffs.isEmpty && st2.fails.isEmpty then return "skip ill_conditioned_uct_tie" else pure ()
   -- a value comparison decided by less than the tolerance: the double run may legitimately branch the other way
   match st.t.margin with
   | some d => if d < tol && st.fails.isEmpty && !st.diffs.isEmpty then return "skip ill_conditioned" else pure ()
   | none => pure ()
-  let v : Verdict := { tag := (if st.sims == 0 then "trivial" else "rPOMCP"), diffs := st.diffs, fails := st.fails }
+  let v : Verdict := { tag := (if st.sims == 0 then "trivial" else if ent then "rPOMCPent" else "rPOMCP"), diffs := st.diffs, fails := st.fails }
   return v.render
 
 /-- `rcnt n (N sumA)*`: the literal count clause on rPOMCP's belief nodes -/
@@ -458,6 +498,23 @@ def trm : P String := do
   let v := v.failIf (ft != 0) s!"{cn} simulates_past_terminal_state {ft} of {n} calls were made on a terminal state reached in the same simulation"
   return v.render
 
+/-- `lib n (log(k+1), 0.7*sqrt(log(k+1)/(1+k%7)), p*log p with p=(1+k%5)/(k+5))*`: the driver's double arithmetic
+    (`Float.log`, `Float.sqrt`) reproduces the implementation's bit for bit -/
+def lib : P String := do
+  let n ← P.nat
+  let rows ← P.rep (do let a ← P.x; let b ← P.x; let c ← P.x; pure (a, b, c)) n
+  P.eof
+  let bad := (List.range n).filter (fun i =>
+    let k := i + 1
+    let (a, b, c) := rows.getD i (.nan, .nan, .nan)
+    let lg := Float.log (k.toFloat + 1.0)
+    let bon := bonusF (ratToFloat (7 / 10 : Rat)) k (1 + k % 7)
+    let pl := plogpF (1 + k % 5) (k + 5)
+    !(floatToX lg == a && bon == b && XRat.fin pl == c))
+  let v : Verdict := { tag := "lib" }
+  let v := v.diffIf (!bad.isEmpty) s!"libm double arithmetic of the driver differs from the implementation's at samples {bad.take 5}"
+  return v.render
+
 def handle (toks : List String) : String :=
   let r := match toks with
     | "run" :: rest => P.run run rest
@@ -467,6 +524,7 @@ def handle (toks : List String) : String :=
     | "rrun" :: rest => P.run rrun rest
     | "rcnt" :: rest => P.run rcnt rest
     | "trm" :: rest => P.run trm rest
+    | "lib" :: rest => P.run lib rest
     | _ => none
   r.getD "bad-op"
 
